@@ -326,7 +326,9 @@ def stepRun (s : St) (impl : String) : St × StepOut := Id.run do
       fails := fails ++ [("success_without_common_version", "-", impl)]
     if s.scn.get "net" == "blackhole" || s.scn.get "net" == "hsblock" then
       fails := fails ++ [("success_without_server_flight", "-", impl)]
-  if m.get "cleft" != "0" || m.get "sleft" != "0" then
+  -- (a dial cancelled by the application is destroyed without a CONNECTION_CLOSE: the server may be left with a
+  -- connection until ITS timeouts run out, which can be the 30 s idle timeout if the client's Finished was already out)
+  if m.get "cleft" != "0" || (m.get "sleft" != "0" && !cancelled) then
     fails := fails ++ [("state_not_released", "-", impl)]
   if dial != "nil" && !(m.get "redial" == "nil" || m.get "redial" == "-") then
     -- same root cause as above: with a zero-length source connection ID the closed-connection placeholder of an
